@@ -46,6 +46,11 @@ fn main() {
             Ok(ops) => content_ids(&rows, ops),
             Err(e) => e.clone(),
         };
+        let mops = match &merged {
+            Ok(ops) if !ops.is_empty() => render_ops(ops),
+            _ => "-".to_string(),
+        };
+        let pre_dump = dump_state(&g.state, &g.warps);
         if let (Ok(line), Ok(ops)) = (&base.result, &merged) {
             // post-state = pre-state + effects of every accepted rewrite (computed against the pre-state), nothing else
             let mut expect = g.state.clone();
@@ -109,7 +114,7 @@ fn main() {
             .filter_map(|r| rows.iter().position(|row| row.req == *r).map(|i| i.to_string()))
             .collect();
         println!(
-            "tbl={} enq={} order={} dec={} blk={} merged={} res={} oracle={} runs={} partial={}",
+            "tbl={} enq={} order={} dec={} blk={} merged={} res={} oracle={} runs={} partial={} mops={} pre={} post={}",
             if tbl.is_empty() { "-".into() } else { tbl },
             if enq_idx.is_empty() { "-".to_string() } else { enq_idx.join(",") },
             if order.is_empty() { "-".to_string() } else { order.iter().map(|i| i.to_string()).collect::<Vec<_>>().join(",") },
@@ -119,7 +124,10 @@ fn main() {
             res,
             if oracle.is_empty() { "ok".to_string() } else { format!("FAIL:{}", oracle.join(",")) },
             runs,
-            partial
+            partial,
+            mops,
+            pre_dump,
+            base.post_dump
         );
     }
 }
